@@ -302,3 +302,53 @@ def check_rotation_skips(p, res, rule, prefixes):
         else:
             res.ok(rule, {"fn": f.pretty, "paths": len(paths), "rotation_calls": len(rot)} if n % 5 == 1 else None)
     return n
+
+
+def check_rotation_loop_exits(p, res, rule, prefixes):
+    """loops that rotate by a step depending on the loop variable (X^(2^(i + lsh)) per selector bit): a `break` decided by comparing that step with the ring degree stops
+    one doubling too early - X^N = -1 still changes the value, only X^(2N) is the identity.  An exit comparing the step with N (coefficient 1) is a violation, with 2N it
+    is accepted."""
+    from .cfg import CFG
+    from .sym import Sym
+    from .rad import _deep_atoms
+    n = 0
+    for f in sorted(p.lib_fns(), key=lambda x: x.uid):
+        if f.kind == "Closure" or f.is_test() or not f.blocks or not f.uid.startswith(prefixes):
+            continue
+        rot = [(bi, t) for bi, t in f.calls() if "rotate" in (f.callee_def(t) or {}).get("n", "") and len(t["a"]) >= 2]
+        if not rot:
+            continue
+        g = CFG(f)
+        flow = Flow(f)
+        sym = None
+        for L in g.loops():
+            nxt = [b for b in L["body"] if f.blocks[b]["t"] and f.blocks[b]["t"]["k"] == "Call" and (f.callee_def(f.blocks[b]["t"]) or {}).get("n") == "next" and g.innermost_loop(b) is L]
+            if not nxt:
+                continue
+            sym = sym or Sym(f, flow)
+            var = ("call", f.uid, nxt[0], ("0",))
+            dep = [bi for bi, t in rot if bi in L["body"] and var in _deep_atoms(sym.operand(t["a"][1]))]
+            if not dep:
+                continue
+            n += 1
+            bad = None
+            for b, s2 in L["exits"]:
+                t = f.blocks[b]["t"]
+                if not t or t["k"] != "Switch" or b == f.blocks[nxt[0]]["t"].get("t"):
+                    continue
+                for r in flow.op_roots(t["o"]):
+                    if r[0] != "bin":
+                        continue
+                    ops = [sym.operand(o) for o in f.blocks[r[1]]["s"][r[2]][2]["o"]]
+                    for x, y in ((ops[0], ops[1]), (ops[1], ops[0])):
+                        if var not in _deep_atoms(x):
+                            continue
+                        deg = [(mono, cf_) for mono, cf_ in y.t.items() if any((a[0] == "f" and a[1] == "n") or (a[0] == "p" and a[2][-1:] == ("n",)) for a in mono)]
+                        if deg and all(abs(cf_) == 1 and len(mono) == 1 for mono, cf_ in deg):
+                            bad = (t["l"], repr(x), repr(y))
+            if bad:
+                res.bad(rule, f.pretty, "rotation-loop-stops-at-N", "%s leaves its rotation loop when %s reaches %s: a step of N still rotates by X^N = -1 (the sign changes), only multiples of 2N "
+                        "are the identity" % (f.pretty, bad[1], bad[2]), site=f.where(bad[0]))
+            else:
+                res.ok(rule, {"fn": f.pretty, "loop": L["header"], "rotations": len(dep)})
+    return n
